@@ -431,6 +431,9 @@ async def _main(env, case, loop, want_db):
 
 
 def run_net(env, case, want_db=False):
+    # a fresh loop and a fresh database: nothing can be in flight.  (A previous case of the same worker that was torn
+    # down with a database coroutine still suspended — e.g. a recovery run of C07 — never ran its `finally`.)
+    Env.INFLIGHT = 0
     loop = PermLoop(case.get("sched", 0))
     asyncio.set_event_loop(loop)
     try:
